@@ -210,21 +210,22 @@ theorem small_crosses_unreachable (d : StructDecl) : parseStruct d ≠ .error .s
 
 /-! ## Enums -/
 
-/-- **enum_roundtrip (full statement).** Every unit variant of the enum packs to bytes that unpack to the same variant.
-    FALSE of the current code for enums with implicit discriminants: see `enum_roundtrip_counterexample`. -/
+/-- **enum_roundtrip (full statement).** Every unit variant of the enum packs to bytes that unpack to the same variant. -/
 def EnumRoundtrips (e : EnumDecl) : Prop :=
   ∀ m size, parseEnum e = .ok m → e.repr.size = some size →
     ∀ idx d, e.variants[idx]? = some d → d.catchAll = false →
-      ∃ bs, enumWrite m size (.unit idx) = .ok bs ∧ enumRead m size bs = .ok (.unit idx)
+      ∃ bs, enumWrite m size (.unit idx) = .ok bs ∧ bs.length = size ∧ enumRead m size bs = .ok (.unit idx)
 
-/-- **enum_roundtrip_partial.** A variant whose discriminant is written explicitly (`= n`, in range of the repr)
-    round-trips, provided the discriminants and alternatives of the enum are pairwise distinct (otherwise the first
-    matching arm wins). Holds with and without catch-all / default / alternatives elsewhere in the enum. -/
-theorem enum_roundtrip_partial {e : EnumDecl} {m : EnumMeta} {size : Nat}
-    (hp : parseEnum e = .ok m) (_hs : e.repr.size = some size)
+/-- One variant: `x` is the discriminant rustc gives it (`E::V as repr`: explicit value, else previous + 1, first 0), a
+    value of the repr (rustc refuses anything else). If the values the read side matches on — discriminants and
+    alternatives — are pairwise distinct, the variant round-trips: explicit or implicit discriminant, with or without
+    catch-all / default / alternatives elsewhere in the enum. (`macro_numbering_is_rustc`: since the fix of parse_enum the
+    macro's numbering, used by the read side and by the write side of catch-all enums, is rustc's.) -/
+theorem enum_variant_roundtrip {e : EnumDecl} {m : EnumMeta} {size : Nat}
+    (hp : parseEnum e = .ok m)
     (hnd : ((m.variants.filter fun b => !b.catchAll).map (·.discriminant)).Nodup)
     (idx : Nat) (d : VariantDecl) (x : Int) (hd : e.variants[idx]? = some d) (hc : d.catchAll = false)
-    (hx : d.disc = some x) (hr : reprInRange e.repr.signed size x) :
+    (hx : (rustDiscsFrom e.variants 0)[idx]? = some x) (hr : reprInRange e.repr.signed size x) :
     ∃ bs, enumWrite m size (.unit idx) = .ok bs ∧ bs.length = size ∧ enumRead m size bs = .ok (.unit idx) := by
   have hi : idx < e.variants.length := by
     by_cases h : idx < e.variants.length
@@ -233,50 +234,58 @@ theorem enum_roundtrip_partial {e : EnumDecl} {m : EnumMeta} {size : Nat}
   have hdi : e.variants[idx] = d := by
     rw [List.getElem?_eq_getElem hi] at hd; exact Option.some.inj hd
   obtain ⟨bs, h1, h2, _, h3⟩ := enum_unit_roundtrip hp hnd idx hi (by rw [hdi]; exact hc) x
-    (macroDiscs_explicit _ _ _ hi x (by rw [hdi]; exact hx))
-    (Or.inr (rustDiscs_explicit _ _ _ hi x (by rw [hdi]; exact hx))) hr
+    (by rw [macro_numbering_is_rustc]; exact hx) (Or.inr hx) hr
   exact ⟨bs, h1, h2, h3⟩
 
-/-- With a catch-all variant the write side is a `match` over the macro's own numbers, so implicit discriminants
-    round-trip too (`x` = the discriminant parse_enum assigned: `macroDiscs`). -/
-theorem enum_roundtrip_with_catch_all {e : EnumDecl} {m : EnumMeta} {size : Nat}
-    (hp : parseEnum e = .ok m) (hca : m.catchAll.isSome = true)
-    (hnd : ((m.variants.filter fun b => !b.catchAll).map (·.discriminant)).Nodup)
-    (idx : Nat) (hi : idx < e.variants.length) (hc : e.variants[idx].catchAll = false) (x : Int)
-    (hx : (macroDiscs e.variants Gen.WireMacro.accumInit)[idx]? = some x) (hr : reprInRange e.repr.signed size x) :
-    ∃ bs, enumWrite m size (.unit idx) = .ok bs ∧ bs.length = size ∧ enumRead m size bs = .ok (.unit idx) := by
-  obtain ⟨bs, h1, h2, _, h3⟩ := enum_unit_roundtrip hp hnd idx hi hc x hx (Or.inl hca) hr
-  exact ⟨bs, h1, h2, h3⟩
+/-- **enum_roundtrip.** The full statement holds for every enum whose read arms (discriminants and alternatives) are
+    pairwise distinct and whose discriminants are values of the repr. Both hypotheses are needed: rustc only enforces
+    them for the discriminants, not for `alternatives` (see `enum_roundtrip_needs_distinct_arms`). -/
+theorem enum_roundtrip (e : EnumDecl)
+    (hnd : ∀ m, parseEnum e = .ok m → ((m.variants.filter fun b => !b.catchAll).map (·.discriminant)).Nodup)
+    (hr : ∀ size, e.repr.size = some size → ∀ x ∈ rustDiscsFrom e.variants 0, reprInRange e.repr.signed size x) :
+    EnumRoundtrips e := by
+  intro m size hp hs idx d hd hc
+  have hi : idx < (rustDiscsFrom e.variants 0).length := by
+    rw [rustDiscsFrom_length]
+    by_cases h : idx < e.variants.length
+    · exact h
+    · rw [List.getElem?_eq_none (by omega)] at hd; cases hd
+  exact enum_variant_roundtrip hp (hnd m hp) idx d _ hd hc (List.getElem?_eq_getElem hi)
+    (hr size hs _ (List.getElem_mem hi))
 
-/-- **enum_roundtrip_counterexample.** `#[repr(u8)] enum E { A, B, C }`: A packs to 0x00, which unpacks to
-    `Err(InvalidValue)`; B packs to 0x01, which unpacks to A. (The read side numbers implicit variants from 1 —
-    `discriminant_accum` starts at 0 and `accum + 1` is used — the write side is `*self as u8`, numbered from 0.) -/
-theorem enum_roundtrip_counterexample :
-    let e : EnumDecl := { repr := .u8, variants := [{}, {}, {}] }
-    ∃ m, parseEnum e = .ok m ∧
-      enumWrite m 1 (.unit 0) = .ok [0] ∧ enumRead m 1 [0] = .err .invalidValue ∧
-      enumWrite m 1 (.unit 1) = .ok [1] ∧ enumRead m 1 [1] = .ok (.unit 0) := by
-  exact ⟨_, rfl, rfl, rfl, rfl, rfl⟩
-
-/-- Hence the full statement fails. -/
-theorem enum_roundtrip_fails_for_implicit_discriminants :
-    ¬ EnumRoundtrips { repr := .u8, variants := [{}, {}, {}] } := by
+/-- The distinct-arms hypothesis is genuine: `#[repr(u8)] enum E { #[wire(alternatives = [2])] A = 1, B = 2 }` compiles
+    (rustc only warns about the unreachable match arm); B packs to 2 and 2 decodes as A, because the first arm wins. -/
+theorem enum_roundtrip_needs_distinct_arms :
+    ¬ EnumRoundtrips { repr := .u8, variants := [{ disc := some 1, alternatives := [2] }, { disc := some 2 }] } := by
   intro h
-  obtain ⟨m, hm, hw, hr, _⟩ := enum_roundtrip_counterexample
-  obtain ⟨bs, h1, h2⟩ := h m 1 hm rfl 0 {} rfl rfl
+  have w : ∃ m, parseEnum { repr := .u8, variants := [{ disc := some 1, alternatives := [2] }, { disc := some 2 }] } = .ok m ∧
+      enumWrite m 1 (.unit 1) = .ok [2] ∧ enumRead m 1 [2] = .ok (.unit 0) := ⟨_, rfl, rfl, rfl⟩
+  obtain ⟨m, hm, hw, hr⟩ := w
+  obtain ⟨bs, h1, _, h2⟩ := h m 1 hm rfl 1 { disc := some 2 } rfl rfl
   rw [hw] at h1
-  have e1 : bs = [0] := (Outcome.ok.inj h1).symm
+  have e1 : bs = [2] := (Outcome.ok.inj h1).symm
   subst e1
   rw [hr] at h2
   cases h2
 
-/-- A second way the two numberings part: alternatives advance the read-side counter but not rustc's.
-    `#[repr(u8)] enum E { #[wire(alternatives = [5, 6])] A = 1, B }`: B packs to 2, and 2 is no declared value. -/
-theorem enum_roundtrip_counterexample_alternatives :
+/-- The former witnesses of the implicit-discriminant defect (fixed in parse_enum.rs: the accumulator started at 0 and
+    alternatives advanced it) now round-trip: `#[repr(u8)] enum E { A, B, C }` — A packs to 0x00 and 0x00 unpacks to A,
+    B packs to 0x01 and unpacks to B. -/
+theorem implicit_discriminants_roundtrip_witness :
+    let e : EnumDecl := { repr := .u8, variants := [{}, {}, {}] }
+    ∃ m, parseEnum e = .ok m ∧
+      enumWrite m 1 (.unit 0) = .ok [0] ∧ enumRead m 1 [0] = .ok (.unit 0) ∧
+      enumWrite m 1 (.unit 1) = .ok [1] ∧ enumRead m 1 [1] = .ok (.unit 1) ∧
+      enumRead m 1 [3] = .err .invalidValue :=
+  ⟨_, rfl, rfl, rfl, rfl, rfl, rfl⟩
+
+/-- `#[repr(u8)] enum E { #[wire(alternatives = [5, 6])] A = 1, B }`: B packs to 2 and 2 unpacks to B; 5 and 6 unpack to
+    A; 7 (what the read side expected for B before the fix) is undefined. -/
+theorem implicit_after_alternatives_witness :
     let e : EnumDecl := { repr := .u8, variants := [{ disc := some 1, alternatives := [5, 6] }, {}] }
-    ∃ m, parseEnum e = .ok m ∧ enumWrite m 1 (.unit 1) = .ok [2] ∧ enumRead m 1 [2] = .err .invalidValue ∧
-      enumRead m 1 [7] = .ok (.unit 1) := by
-  exact ⟨_, rfl, rfl, rfl, rfl⟩
+    ∃ m, parseEnum e = .ok m ∧ enumWrite m 1 (.unit 1) = .ok [2] ∧ enumRead m 1 [2] = .ok (.unit 1) ∧
+      enumRead m 1 [5] = .ok (.unit 0) ∧ enumRead m 1 [7] = .err .invalidValue :=
+  ⟨_, rfl, rfl, rfl, rfl, rfl⟩
 
 /-- The catch-all payload round-trips when it is not one of the declared values (a payload equal to a declared
     discriminant reads back as that variant: the value is not canonical). -/
@@ -349,8 +358,8 @@ theorem layouts_well_formed :
   decide
 
 /-- Every derived enum of /repo/src is accepted by the model of `parse_enum`, has a supported repr, and its
-    non-catch-all variants all carry explicit discriminants — so `enum_roundtrip_partial` covers every in-crate enum and the
-    implicit-discriminant defect is not triggered by ethercrab's own types. -/
+    non-catch-all variants all carry explicit discriminants (so no in-crate enum was ever affected by the former
+    implicit-discriminant defect). -/
 theorem layouts_enums_explicit :
     ∀ x ∈ Gen.Layouts.enums,
       (match parseEnum x.2.2 with
@@ -411,7 +420,7 @@ example : ∃ m, Accepted exDecl m ∧ WellTyped m ∧ validVals m.fields [.int 
     cases hvs
     exact ⟨m, ⟨hp, g.pos⟩, ⟨g.lawful, g.fits, g.gen⟩, hvv⟩
 
-/-- `enum_roundtrip_partial` is not vacuous: explicit, distinct, in-range discriminants. -/
+/-- `enum_variant_roundtrip` / `enum_roundtrip` are not vacuous: distinct, in-range discriminants. -/
 example : ∃ m, parseEnum exEnum = .ok m ∧
     ((m.variants.filter fun b => !b.catchAll).map (·.discriminant)).Nodup ∧ reprInRange exEnum.repr.signed 1 2 :=
   ⟨_, rfl, by decide, by simp [reprInRange, exEnum, ReprTy.signed]⟩
